@@ -123,7 +123,7 @@ Fixpoint number_loop (thumb : option Z) (files : list fobs) (startNr endNr nr ds
     match f with
     | FMissing => Ok (acc, dsd, u32 (nr - 1))
     | FBad => Err "readSegment"
-    | FNoFrag => Panic "readMP4Segment: index out of range [0] with length 0"   (* s.Fragments[0] *)
+    | FNoFrag => Err "readSegment"      (* "no fragments in ..." *)
     | FSeg o =>
       let '(sg, dsd') := match thumb with
                          | None => read_mp4 dsd o nr
@@ -162,7 +162,6 @@ Fixpoint time_reads (tfile : Z -> fobs) (n : nat) (t d dsd : Z) (acc : list cseg
     match tfile t with
     | FSeg o => let '(sg, dsd') := read_mp4 dsd o 0 in
                 time_reads tfile k (u64 (t + d)) d dsd' (acc ++ [sg])
-    | FNoFrag => Panic "readMP4Segment: index out of range [0] with length 0"
     | _ => Err "readMP4Segment"
     end
   end.
@@ -273,7 +272,7 @@ Definition scan_rep (m : mpd_rep) : res repdata :=
 (** The cache file of one representation as loadFromJSON finds it. *)
 Inductive cobs (B : Type) :=
 | CAbsent                 (* no file (or empty): (false, nil) *)
-| CBroken                 (* gzip or read error: (true, err) *)
+| CBroken                 (* gzip or read error: (true, err); loadRep then scans *)
 | CBytes (b : B).         (* decompressed / plain contents *)
 Arguments CAbsent {B}. Arguments CBroken {B}. Arguments CBytes {B} b.
 
@@ -304,8 +303,13 @@ Section Loader.
     if use_cache md then
       match c with
       | CAbsent => scan_w
-      | CBroken => (Err "loadFromJSON", None)
-      | CBytes b => (load_json b (m_init m), None)
+      | CBroken => scan_w              (* logged; the segments are scanned instead *)
+      | CBytes b =>
+        match load_json b (m_init m) with
+        | Ok r => (Ok r, None)
+        | Panic s => (Panic s, None)
+        | Err _ => scan_w              (* logged; the segments are scanned instead *)
+        end
       end
     else scan_w.
 
@@ -406,7 +410,9 @@ Section Loader.
         end
     end.
 
-  (** loadAsset for one MPD of the asset [a] (already registered by addAsset). *)
+  (** loadAsset for one MPD of the asset [a] (already registered by addAsset).  The MPD, its new
+      representations and SegmentDurMS are committed to the asset only when all of them loaded
+      (newReps / segmentDurMS in the code); files written to the cache directory stay. *)
   Definition load_asset (md : lmode) (apath mpdName : string) (o : mpd_obs) (a : asset) (c : cache) : res lstate :=
     match o with
     | MReadErr => Ok (a, c, Some "read MPD")
@@ -414,7 +420,9 @@ Section Loader.
     | MOk sets =>
       let a1 := {| a_mpds := a_mpds a ++ [mpdName]; a_reps := a_reps a; a_segdur := a_segdur a;
                    a_loop := a_loop a; a_ref := a_ref a |} in
-      load_sets md apath sets a1 c
+      do r <- load_sets md apath sets a1 c;
+      let '(a', c', e) := r in
+      Ok (match e with None => a' | Some _ => a end, c', e)
     end.
 
   (** * setReferenceRep and consolidateAsset *)
@@ -444,15 +452,34 @@ Section Loader.
   Definition dur_ms (r : repdata) : res Z :=
     go_div "consolidateAsset: integer divide by zero" (mul64 1000 (rduration (r_segs r))) (r_mediats r).
 
-  Fixpoint all_same_dur (refct : string) (loopMS : Z) (l : list (string * repdata)) : res bool :=
+  (** the contiguity test of consolidateAsset: Segments[i].StartTime == Segments[i-1].EndTime *)
+  Fixpoint table_contig_b (l : list cseg) : bool :=
     match l with
-    | [] => Ok true
+    | a :: ((b :: _) as t) => (c_st b =? c_en a) && table_contig_b t
+    | _ => true
+    end.
+
+  (** The loop over all representations. [Ok None]: some table is not contiguous (error returned at
+      once); [Ok (Some b)]: b = no duration differs.  Audio next to a non-audio reference is
+      re-segmented and only compared (in ms) when pre-encrypted; every other representation must
+      have exactly the duration of the reference (cross-multiplied ticks).  Representations with
+      timescale 0 (thumbnails without a duration) are skipped after the contiguity test.  Go ranges
+      over a map; no outcome depends on the order (the first non-contiguous table ends the loop
+      with the same error whichever it is). *)
+  Fixpoint check_reps (ref : repdata) (loopMS : Z) (l : list (string * repdata)) : res (option bool) :=
+    match l with
+    | [] => Ok (Some true)
     | (_, r) :: t =>
-      if negb (String.eqb (r_ctype r) refct) && negb (r_preenc r) then all_same_dur refct loopMS t
-      else
-        do d <- dur_ms r;
-        do rest <- all_same_dur refct loopMS t;
-        Ok ((d =? loopMS) && rest)
+      if negb (table_contig_b (r_segs r)) then Ok None else
+      if r_mediats r =? 0 then check_reps ref loopMS t else     (* no media timeline that is looped *)
+      do d <- dur_ms r;
+      let same := mul64 (rduration (r_segs r)) (r_mediats ref) =? mul64 (rduration (r_segs ref)) (r_mediats r) in
+      let this :=
+        if String.eqb (r_ctype r) "audio" && negb (String.eqb (r_ctype ref) "audio") then
+          (if negb (r_preenc r) then true else d =? loopMS)
+        else same in
+      do rest <- check_reps ref loopMS t;
+      Ok (match rest with None => None | Some b => Some (this && b) end)
     end.
 
   (** consolidateAsset: [Ok (Some a')] admitted, [Ok None] left out. *)
@@ -466,10 +493,12 @@ Section Loader.
         do loopMS <- dur_ms ref;
         if negb (mul64 loopMS (r_mediats ref) =? mul64 1000 (rduration (r_segs ref))) then Ok None
         else
-          do same <- all_same_dur (r_ctype ref) loopMS (a_reps a);
-          if same then Ok (Some {| a_mpds := a_mpds a; a_reps := a_reps a; a_segdur := a_segdur a;
-                                   a_loop := loopMS; a_ref := Some k |})
-          else Ok None
+          do v <- check_reps ref loopMS (a_reps a);
+          match v with
+          | Some true => Ok (Some {| a_mpds := a_mpds a; a_reps := a_reps a; a_segdur := a_segdur a;
+                                     a_loop := loopMS; a_ref := Some k |})
+          | _ => Ok None
+          end
       end
     end.
 
